@@ -31,8 +31,13 @@ MANIFEST = {
             "label/protocol/ordered/reliability/negotiated; events_on_change + at_most_one_event: open/close/datachannel are emitted only on "
             "the corresponding transition and at most once per channel object over every run from the initial state; (d) buffered_exact: "
             "bufferedAmount of every non-closed channel = user-data bytes queued for it in _data_channel_queue, preserved by every step in "
-            "which no exception escapes, hence never negative and 0 when nothing is queued; evLow_exact: _addBufferedAmount emits "
-            "bufferedamountlow iff the amount goes from > threshold to <= threshold; (e) closed_all: _set_state(CLOSED) closes every channel "
+            "which no exception escapes - INCLUDING steps in which an application handler re-entered send() (buffered_react: react/dcSend are "
+            "accounted like send()) -, hence never negative and 0 when nothing is queued; evLow_exact: _addBufferedAmount (up to the handler: "
+            "addBufferedCore) emits bufferedamountlow iff the amount goes from > threshold to <= threshold, addBuffered_core_react: the handler "
+            "runs after the amount was stored, at most once; re-entrant handlers: react_sends_only_when_open (a handler consumes its reaction "
+            "and, iff the channel is open, does exactly _data_channel_send, otherwise only InvalidStateError inside the handler), "
+            "reactions_one_shot (only the application arms reactions, a firing handler consumes one), flush_fuel_suffices (the flush loop "
+            "never stops on fuel although handlers append entries inside it); (e) closed_all: _set_state(CLOSED) closes every channel "
             "in _data_channels or _data_channel_queue and empties both; (f) negotiated_exact_id: negotiated=True registers exactly the "
             "given id or raises ValueError leaving the state unchanged.",
     "note": "End-to-end clauses that need the peer and the network to make progress (exactly one `datachannel` event at the PEER, close() "
@@ -48,7 +53,9 @@ ASSUMPTIONS = [
     "buffered_exact says nothing about channels that are already closed (close() before the association is up drops their queue entries without touching bufferedAmount)",
     "closed_all assumes the keys of _data_channels are distinct (a dict in the real code)",
     "LifeInv (readyState in 0..3, _data_channel_id = role parity once started) and BufInv hold initially (lifeInv_init, bufInv_init) and are preserved (ready_forward, buffered_exact)",
-    "evLow_exact is stated for _addBufferedAmount, the only emitter of bufferedamountlow in the model; that send() only adds and flush only subtracts is in buffered_send_flush",
+    "evLow_exact is stated for addBufferedCore (= _addBufferedAmount up to the application's bufferedamountlow handler), the only emitter of "
+    "bufferedamountlow in the model; addBuffered = core + at most one reaction (addBuffered_core_react); that send() only adds and flush only "
+    "subtracts is in buffered_send_flush",
     "'is_server' of the two sides differ (ICE roles of a pair differ): hypothesis of auto_ids_never_collide",
 ]
 TRUSTED_EXTRA = [
@@ -57,7 +64,9 @@ TRUSTED_EXTRA = [
     "Labels/protocols are byte strings in the model (their UTF-8 encoding); `utf8Valid` models CPython's strict UTF-8 decoder (checked by the `dcep` component "
     "on boundary code points, surrogates, overlong forms, truncations and random bytes); `encodeCp` is a transcription of Unicode Table 3-6",
     "asyncio scheduling: every handler runs atomically (checked: a suspended handler is reported as harness assumption violation); ensure_future'd coroutines are the `task` inputs",
-    "pyee event delivery: `silent` models 'no listener can be registered yet / listeners removed', events are compared as recorded by listeners attached at creation/announcement",
+    "pyee event delivery: `silent` models 'no listener can be registered yet / listeners removed', events are compared as recorded by listeners attached "
+    "at creation/announcement; handlers that re-enter the API are modelled for `send()` (one-shot reactions in open/close/bufferedamountlow/message/"
+    "datachannel handlers, `react`); handlers that call close() or createDataChannel() from inside an event are NOT modelled",
 ]
 RULE = ("programs of create/send/close/threshold/stop operations issued by both sides at arbitrary steps of a recorded fault "
         "schedule over two REAL endpoints (creates before start, close right after create, thresholds incl. invalid values, Unicode labels of all "
@@ -156,6 +165,9 @@ def lifecycle_ops(rng, case, n_steps, profile):
         ep = w.ep[name]
         if step == stop_at:
             do(["stop", name])
+            continue
+        if rng.random() < 0.05:
+            W.arm_reaction(rng, w, name, do)
             continue
         if r < 0.45:
             q = w.net[name]
@@ -357,9 +369,16 @@ def oracle_c13_extra(case, run):
             chans = pub["channels"]
             before = prev["channels"] if prev is not None else []
             lows = collections.Counter(ev[1] for ev in events if ev[0] == "low")
+            # send() calls the application issued from inside an event handler during this step (accepted ones)
+            rsent = collections.Counter()
+            for ev in events:
+                if ev[0] == "rsend":
+                    rsent[ev[1]] += _nbytes(ev[2])
             for i, (cid, ready, buffered) in enumerate(chans):
+                if buffered < 0:
+                    return f"endpoint {n} channel #{i} id={cid}: bufferedAmount={buffered} is negative (step {k}, {inp[0]})"
                 if i >= len(before):
-                    if buffered != 0:
+                    if buffered != rsent.get(i, 0):
                         return f"endpoint {n} channel #{i}: bufferedAmount={buffered} at creation (step {k})"
                     continue
                 _, ready0, b0 = before[i]
@@ -368,8 +387,10 @@ def oracle_c13_extra(case, run):
                     if buffered - b0 != want:
                         return (f"endpoint {n} channel #{i} id={cid}: send() of {want} byte(s) in state {ready0} changed "
                                 f"bufferedAmount by {buffered - b0} (step {k})")
-                elif buffered > b0:
+                elif buffered > b0 + rsent.get(i, 0):
                     return f"endpoint {n} channel #{i} id={cid}: bufferedAmount grew {b0} -> {buffered} without send() (step {k}, {inp[0]})"
+                if i in rsent:
+                    continue        # not monotone within the step: the crossings are judged by the model comparison
                 if ready != "closed" and ready0 != "closed":
                     want_low = 1 if (b0 > thr[i] and buffered <= thr[i]) else 0
                     if lows.get(i, 0) != want_low:
@@ -411,7 +432,9 @@ class World(S.WorldComponent):
     name = "world"
     prop = "C13"
     theorems = ["dcep_roundtrip", "open_announces", "ids_disjoint", "auto_id_parity", "ready_forward", "events_on_change",
-                "at_most_one_event", "buffered_exact", "evLow_exact", "closed_all", "negotiated_exact_id"]
+                "at_most_one_event", "buffered_exact", "buffered_react", "evLow_exact", "addBuffered_core_react", "closed_all",
+                "negotiated_exact_id", "react_sends_only_when_open", "reactions_one_shot", "flush_fuel_suffices", "reset_deferred",
+                "flushLoop_ids_in_range"]
     mix = [("life2", False, 4), ("lifecycle", False, 2), ("life2", True, 1), ("mixed-pr", False, 1)]
     quick = (32, 220)
     thorough = (400, 450)
